@@ -459,9 +459,23 @@ def r4_category(rep, ctx):
             rep.check(ok, "C02.R4", "IndexAsScalar:quantity", "the Scalar gets the requested quantity or the array's own", "IndexAsScalar builds the Scalar with %s" % (show(q) if q else None), node=r, fn=ia)
     # FromScalars: category given or the first scalar's
     fs = m.method("Array", "FromScalars")
-    st = [s for s in own_statements(fs.node) if isinstance(s, ast.Assign) and isinstance(s.targets[0], ast.Name) and s.targets[0].id == "category" and isinstance(s.value, ast.BoolOp)]
+    fres = Resolver(m, fs)
+    PCAT = ("param", fs.params.index("category"), "category")
+    PSC = ("param", fs.params.index("scalars"), "scalars")
     n += 1
-    ok = len(st) == 1 and ast.unparse(st[0].value).replace(" ", "") in ("categoryorfirst_scalar.category", "categoryorfirst_scalar.GetCategory()")
+    ok = False
+    # the constructing call that receives the converted values: its category is `category or <first scalar>.category`
+    for c in own_nodes(fs.node):
+        if isinstance(c, ast.Call) and isinstance(c.func, ast.Name) and c.func.id == fs.params[0]:
+            kw = {k.arg: k.value for k in c.keywords}
+            if "category" not in kw or "values" not in kw or (isinstance(kw["values"], ast.List) and not kw["values"].elts):
+                continue
+            for a_ in alternatives(fres.term(kw["category"])):
+                if a_[0] == "op" and a_[1] == "Or" and len(a_[2]) == 2 and a_[2][0] == PCAT:
+                    first = a_[2][1]
+                    recv = first[1] if first[0] == "attr" and first[2] == "category" else first[1][1] if (first[0] == "call" and first[1][0] == "attr" and first[1][2] == "GetCategory") else None
+                    if recv is not None and recv[0] == "call" and recv[1] == ("name", "next") and any(x == PSC for x in walk(recv)):
+                        ok = True
     rep.check(ok, "C02.R4", "FromScalars:category", "the Array takes the given category or the first scalar's", "FromScalars does not default the category to the first scalar's category", fn=fs)
     # ChangingIndex: scalars built from plain numbers / tuples take the array's unit only -> default category
     ci = m.own_method("FixedArray", "ChangingIndex")
